@@ -1,27 +1,23 @@
 //! Witness channel between the solver and native replay.
 //!
 //! Every symbolic input of a harness (and every nondeterministic choice of the environment shims) is drawn
-//! through this crate. Under Kani (`cfg(kani)`) a draw is `kani::any()` and the drawn value is also stored in
-//! the global table `W` at the next index; CBMC's counterexample trace therefore contains one assignment
-//! `W[i] = value` per draw, which `lib/runner.py` extracts. In a native build (`cfg(not(kani))`, used for replay)
+//! through this crate. Under Kani (`cfg(kani)`) a draw is `kani::any()` made inside the out-of-line function
+//! `draw`; CBMC's counterexample trace lists every return value of `draw` in program order, which
+//! `lib/runner.py` extracts. In a native build (`cfg(not(kani))`, used for replay)
 //! the same draws return the values of `VERIF_WITNESS="v0,v1,..."` in the same order, so the harness re-executes
 //! the counterexample against the rustc-compiled real code. `assume` panics natively if the witness violates an
 //! assumption (which would mean the witness was extracted wrongly: the replay is then reported as not reproduced).
-pub const N: usize = 128;
-pub static mut W: [u64; N] = [0; N];
-pub static mut NEXT: usize = 0;
+#[cfg(not(kani))]
+static mut NEXT: usize = 0;
 
+/// One symbolic draw. Kept out of line and free of any other state: the runner reads the sequence of values returned by
+/// this very function from CBMC's counterexample trace (`return_value$$..vwit4draw=..`), in program order.
+/// (An earlier version also stored every draw in a global table; writes to that static made CBMC report spurious
+/// invalid-pointer failures in unrelated Vec code, so the table is gone.)
 #[cfg(kani)]
+#[inline(never)]
 fn draw() -> u64 {
     let v: u64 = kani::any();
-    unsafe {
-        let i = NEXT;
-        if i >= N {
-            panic!("vwit: witness table full");
-        }
-        W[i] = v;
-        NEXT = i + 1;
-    }
     v
 }
 #[cfg(not(kani))]
@@ -42,8 +38,9 @@ fn draw() -> u64 {
         s.get(i).copied().unwrap_or(0)
     }
 }
-/// Start a fresh scenario (native test threads share the statics; harness tests are run one per process).
+/// Start a fresh scenario (native only; harness tests are run one per process).
 pub fn reset() {
+    #[cfg(not(kani))]
     unsafe {
         NEXT = 0;
     }
